@@ -9,15 +9,14 @@ with the reference table derived from docs/yaml/elementary/*.yml + Syntax.md.
 from __future__ import annotations
 
 import ast
-import re
 import typing as T
 
 from ..core import Module, Repo, Undecided, norm, short, attr_chain
 from ..report import RuleCtx
 from ..consteval import fold_expr, fold_const, Regex, EnumMember, Opaque
-from .. import tables
+from .. import tables, rx
 from ..tables import Atom
-from .c01_sym import SymPath, Evaluator, sym_paths, is_call, show, subterms
+from .c01_sym import SymPath, sym_paths, is_call, show, subterms
 from .c01_parser import MPARSER, mro_cached, _summaries, semantic, ctor_binding
 from . import c01_eval
 from .c01_eval import IB, EvalFn, views, abstract, fmt, EV, NONE, dispatch_arms, arm_method, rename
@@ -59,66 +58,118 @@ class LexTables:
         self.spec: T.List[T.Tuple[str, Regex]] = fold_expr(repo, mod, vals['self.token_specification'], env=env)
         self.single: T.Dict[str, str] = fold_expr(repo, mod, vals['self.single_char_tokens'], env=env)
         self.keywords: T.Set[str] = set(fold_expr(repo, mod, vals['self.keywords'], env=env))
-        for tid, rx in self.spec:
-            if not isinstance(rx, Regex):
+        for tid, r in self.spec:
+            if not isinstance(r, Regex):
                 raise Undecided(f'token_specification entry {tid} is not a compiled regex')
+        self._first: T.Dict[T.Tuple[str, int, str], bool] = {}
 
-    def lex1(self, text: str) -> T.Tuple[T.Optional[str], str]:
-        """Token id and text of the first token of `text` (first matching specification wins, else single character)."""
-        for tid, rx in self.spec:
-            m = re.compile(rx.pattern, rx.flags).match(text)
-            if m:
-                v = m.group()
-                if tid == 'id' and v in self.keywords:
-                    tid = v
-                return tid, v
-        return self.single.get(text[0]), text[0]
+    # -- facts about the folded tables (nothing is scanned: table lookups and regex-language facts only) -------------
+    def index(self, tid: str) -> T.Optional[int]:
+        ix = [i for i, (t, _) in enumerate(self.spec) if t == tid]
+        return ix[0] if len(ix) == 1 else None
 
-    def lex(self, text: str) -> T.List[T.Tuple[T.Optional[str], str]]:
-        out = []
-        while text:
-            tid, v = self.lex1(text)
-            if not v:
-                raise Undecided(f'lexer model: empty match on {text!r}')
-            text = text[len(v):]
-            if tid != 'whitespace':
-                out.append((tid, v))
-        return out
+    def literal_language(self, r: Regex) -> T.Optional[str]:
+        """The single word of L(r) when the regex is a plain literal (`<=`, `\\+=`), else None."""
+        items = list(rx.parse(r.pattern, r.flags))
+        if items and all(op is rx.sre_c.LITERAL for op, _ in items):
+            return ''.join(chr(av) for _, av in items)
+        return None
+
+    def can_start_with(self, r: Regex, ch: str) -> bool:
+        """Regex-language fact: some word of L(r) begins with `ch` (first-character set on the Thompson NFA)."""
+        key = (r.pattern, r.flags, ch)
+        if key not in self._first:
+            nfa = rx.build(r.pattern, r.flags)
+            self._first[key] = bool(nfa.step(nfa.closure([nfa.start]), ch))
+        return self._first[key]
+
+    def token_of(self, word: str) -> T.Tuple[T.Optional[str], str]:
+        """Token id the tables assign to the operator spelling `word`, decided from
+        (1) a specification whose language is exactly {word} and that no earlier specification can pre-empt,
+        (2) membership in the keyword set + the identifier language (keyword promotion is checked structurally),
+        (3) the single-character table, where only longer *literal* operator tokens may begin with the character."""
+        lit = [(i, t) for i, (t, r) in enumerate(self.spec) if self.literal_language(r) == word]
+        if len(lit) > 1:
+            return None, f'several specifications have the language {{{word}}}: {[t for _, t in lit]}'
+        if lit:
+            i, t = lit[0]
+            early = [self.spec[j][0] for j in range(i) if self.can_start_with(self.spec[j][1], word[0])]
+            if early:
+                return None, f'specification {t} is pre-empted by the earlier {early}, which can also begin with {word[0]!r}'
+            return t, f'specification {t} has the language {{{word}}}'
+        if word in self.keywords:
+            i_id = self.index('id')
+            if i_id is None:
+                return None, 'no `id` specification'
+            if not rx.full_matches(self.spec[i_id][1].pattern, word, self.spec[i_id][1].flags):
+                return None, f'keyword {word} is not in the identifier language'
+            early = [self.spec[j][0] for j in range(i_id) if self.can_start_with(self.spec[j][1], word[0])]
+            if early:
+                return None, f'keyword {word} can be pre-empted by the earlier {early}'
+            return word, f'{word} is an identifier in self.keywords'
+        if len(word) == 1 and word in self.single:
+            longer = [(t, self.literal_language(r)) for t, r in self.spec if self.can_start_with(r, word)]
+            bad = [t for t, l in longer if l is None or not l.startswith(word) or len(l) < 2]
+            if bad:
+                return None, f'specification(s) {bad} can begin with {word!r} and are not longer literal operators'
+            return self.single[word], f'single_char_tokens[{word!r}]'
+        return None, f'neither a literal specification, a keyword nor a single-character token'
+
+    def tokens_of(self, spelling: str) -> T.Tuple[T.Tuple[T.Optional[str], ...], T.List[str]]:
+        ts, whys = [], []
+        for w in spelling.split(' '):
+            t, why = self.token_of(w)
+            ts.append(t)
+            whys.append(why)
+        return tuple(ts), whys
 
 
 def check_lexer_algorithm(ctx: RuleCtx, lt: LexTables) -> None:
-    """The folded tables are used the way `lex1` models it: specification in order, first match wins,
-    single characters as fallback, identifiers that are keywords become their own token."""
+    """The folded tables are used the way `LexTables.token_of` reads them: specification in order, first match wins,
+    single characters as fallback, identifiers that are keywords become their own token.
+    Unrecognised shapes are *undecided*; only a recognised loop without the property is a violation."""
     mod = lt.mod
     fn = mod.func('Lexer.lex')
     loops = [n for n in ast.walk(fn) if isinstance(n, ast.For) and norm(n.iter) == 'self.token_specification']
-    ok = False
-    if len(loops) == 1:
-        lp = loops[0]
-        tgt = [norm(x) for x in lp.target.elts] if isinstance(lp.target, ast.Tuple) else []
-        matches = [c for c in ast.walk(lp) if isinstance(c, ast.Call) and isinstance(c.func, ast.Attribute) and c.func.attr == 'match'
-                   and len(tgt) == 2 and norm(c.func.value) == tgt[1] and [norm(a) for a in c.args] == ['self.code', 'loc']]
-        brk = [b for b in ast.walk(lp) if isinstance(b, ast.Break)]
-        fallback = [s for s in ast.walk(ast.Module(body=lp.orelse, type_ignores=[])) if isinstance(s, ast.Subscript) and norm(s.value) == 'self.single_char_tokens']
-        ok = len(matches) == 1 and len(brk) == 1 and len(fallback) == 1 and len(tgt) == 2 and tgt[0] == 'tid'
-    ctx.require(ok, 'Lexer.lex: specifications tried in order at the current position, first match wins, single characters as fallback', mod, 'Lexer.lex',
-                'token selection loop', 'the token selection loop of Lexer.lex no longer has the shape the lexer model assumes (for/match/break/else single_char_tokens)', fn)
+    if len(loops) != 1 or not (isinstance(loops[0].target, ast.Tuple) and len(loops[0].target.elts) == 2 and all(isinstance(x, ast.Name) for x in loops[0].target.elts)):
+        raise Undecided('Lexer.lex: token selection is not one `for (tid, regex) in self.token_specification` loop')
+    lp = loops[0]
+    tidv, regv = (x.id for x in lp.target.elts)       # type: ignore[attr-defined]
+    matches = [c for c in ast.walk(lp) if isinstance(c, ast.Call) and isinstance(c.func, ast.Attribute) and c.func.attr == 'match' and norm(c.func.value) == regv and len(c.args) == 2]
+    if len(matches) != 1:
+        raise Undecided('Lexer.lex: the specification loop does not try `regex.match(text, position)` exactly once')
+    hit_ifs = [s for s in lp.body if isinstance(s, ast.If)]
+    if len(hit_ifs) != 1:
+        raise Undecided('Lexer.lex: the specification loop body is not `match; if matched: ...`')
+    brk = [b for b in hit_ifs[0].body if isinstance(b, ast.Break)]
+    ctx.require(len(brk) == 1 and not hit_ifs[0].orelse, 'Lexer.lex: specifications are tried in order and the first match wins', mod, 'Lexer.lex', 'token selection: first match wins',
+                'the token selection loop does not stop at the first matching specification: a later (shorter) specification can override `<=` / `==` / keywords', hit_ifs[0])
+    fallback = [s for s in ast.walk(ast.Module(body=lp.orelse, type_ignores=[])) if isinstance(s, ast.Assign) and norm(s.targets[0]) == tidv
+                and isinstance(s.value, ast.Subscript) and norm(s.value.value) == 'self.single_char_tokens']
+    if len(fallback) != 1:
+        raise Undecided('Lexer.lex: single-character fallback `tid = self.single_char_tokens[char]` not found in the else branch of the specification loop')
+    ctx.ok('Lexer.lex: single characters are the fallback when no specification matches')
     # keyword promotion
     promo = []
     for st, guards in _guarded(fn.body, []):
-        if isinstance(st, ast.Assign) and norm(st.targets[0]) == 'tid' and norm(st.value) == 'value':
-            promo.append(guards)
-    ok = len(promo) == 1 and ("tid == 'id'", True) in promo[0] and ('value in self.keywords', True) in promo[0]
-    ctx.require(ok, 'Lexer.lex: an identifier that is a keyword becomes its own token id', mod, 'Lexer.lex', 'keyword promotion',
-                f'keyword promotion `tid = value` is guarded by {promo}; expected tid == \'id\' and value in self.keywords', fn)
+        if isinstance(st, ast.Assign) and norm(st.targets[0]) == tidv and isinstance(st.value, ast.Name):
+            g = [(norm(t), v) for t, v in guards]
+            if (f"{tidv} == 'id'", True) in g:
+                promo.append((st.value.id, g))
+    if len(promo) != 1:
+        raise Undecided(f'Lexer.lex: expected one keyword promotion `{tidv} = <text>` under `{tidv} == \'id\'`, found {len(promo)}')
+    v, g = promo[0]
+    ctx.require((f'{v} in self.keywords', True) in g, 'Lexer.lex: an identifier that is a keyword becomes its own token id', mod, 'Lexer.lex', 'keyword promotion',
+                f'keyword promotion `{tidv} = {v}` is guarded by {[x for x, _ in g]}; it must apply exactly to members of self.keywords', fn)
 
 
-def _guarded(body: T.List[ast.stmt], guards: T.List[T.Tuple[str, bool]]) -> T.Iterator[T.Tuple[ast.stmt, T.List[T.Tuple[str, bool]]]]:
+def _guarded(body: T.List[ast.stmt], guards: T.List[T.Tuple[ast.AST, bool]]) -> T.Iterator[T.Tuple[ast.stmt, T.List[T.Tuple[ast.AST, bool]]]]:
+    """Statements with the (test, polarity) of the enclosing `if`s (structural control dependence)."""
     for st in body:
         yield st, guards
         if isinstance(st, ast.If):
-            yield from _guarded(st.body, guards + [(norm(st.test), True)])
-            yield from _guarded(st.orelse, guards + [(norm(st.test), False)])
+            yield from _guarded(st.body, guards + [(st.test, True)])
+            yield from _guarded(st.orelse, guards + [(st.test, False)])
         elif isinstance(st, (ast.For, ast.While, ast.With)):
             yield from _guarded(st.body, guards)
             yield from _guarded(getattr(st, 'orelse', []), guards)
@@ -330,11 +381,11 @@ def r2(ctx: RuleCtx) -> None:
     level_of = {'COMPARISON_MAP': 'e4', 'ADDSUB_MAP': 'e5', 'MULDIV_MAP': 'e6'}
     node_string: T.Dict[str, T.Tuple[str, str]] = {}        # spelling -> (node class, string stored)
     for spelling, (member, pyop) in BINARY.items():
-        toks = lt.lex(spelling + ' x')[:-1]
-        tids = tuple(t for t, _ in toks)
-        texts = [v for _, v in toks]
-        ctx.require(' '.join(texts) == spelling and None not in tids, f'`{spelling}` is lexed as {"+".join(map(str, tids))}', mp, 'Lexer.__init__', f'lexing of {spelling}',
-                    f'the source text `{spelling}` is lexed as {toks}, not as the operator', lt.nodes['self.token_specification'])
+        tids, whys = lt.tokens_of(spelling)
+        ctx.require(None not in tids, f'`{spelling}` is the token {"+".join(map(str, tids))} ({"; ".join(whys)})', mp, 'Lexer.__init__', f'token of {spelling}',
+                    f'the lexer tables give the operator `{spelling}` no token of its own: {"; ".join(whys)}', lt.nodes['self.token_specification'])
+        if None in tids:
+            continue
         # which parser table takes this token, and which string does it put on the node
         stored = None
         if len(tids) == 1:
@@ -376,7 +427,19 @@ def r2(ctx: RuleCtx) -> None:
         if target is None:
             raise Undecided(f'evaluate_statement: arm for {cls} is not a single evaluator call')
         ef = EvalFn(ctx, target)
-        lookup = ('sub', ('name', 'operator.MAPPING'), ('name', f'NODE.{field}'))
+        lookup = None
+        for v0 in views(ef):
+            for o in v0.ops:
+                cand = o[1]
+                if isinstance(cand, tuple) and cand[0] == 'sub' and cand[1][0] == 'name' and cand[2] == ('name', f'NODE.{field}'):
+                    try:
+                        tbl = fold_expr(repo, ib, ast.parse(cand[1][1], mode='eval').body)
+                    except (Undecided, SyntaxError):
+                        continue
+                    if tbl == mapping:
+                        lookup = cand
+        if lookup is None:
+            lookup = ('sub', ('name', 'operator.MAPPING'), ('name', f'NODE.{field}'))
         roles: T.Set[T.Any] = set()
         n = 0
         for v in views(ef):
@@ -408,7 +471,7 @@ def r2(ctx: RuleCtx) -> None:
                 val = tests[0][1] if tests else None
                 if tests:
                     members_t = tests[0][0][2][1]
-                    names = {x[1] for x in members_t[1]} if members_t[0] in ('tuple', 'list', 'set') else None
+                    names = {_canon_member(x)[1] for x in members_t[1]} if members_t[0] in ('tuple', 'list', 'set') else None
                     ctx.require(names == {'MesonOperator.IN', 'MesonOperator.NOT_IN'}, f'{target}: operands are reversed for exactly IN / NOT_IN', ef.mod, ef.qn,
                                 f'{target}: swap set {sorted(names) if names else fmt(members_t)}', f'operands are reversed for {names}; only `in`/`not in` take the container on the right', v.sp.last_node)
                 roles.add((val, swapped))
@@ -421,10 +484,9 @@ def r2(ctx: RuleCtx) -> None:
             ctx.require(roles >= {(True, True), (False, False)}, f'{target}: both operand roles exist (reversed for in/not in, straight otherwise)', ef.mod, ef.qn, f'{target}: roles {sorted(map(str, roles))}',
                         f'{target} has operand roles {sorted(map(str, roles))} (in-test value, reversed)', ef.fn)
     for spelling, (cls, member, pyop) in UNARY.items():
-        toks = lt.lex(spelling + ' x')[:-1]
-        tids = tuple(t for t, _ in toks)
+        tids, whys = lt.tokens_of(spelling)
         want_tok = 'not' if spelling == 'not' else 'dash'
-        ctx.require(tids == (want_tok,), f'unary `{spelling}` is lexed as {want_tok}', mp, 'Lexer.__init__', f'lexing of unary {spelling}', f'`{spelling}` is lexed as {toks}', lt.nodes['self.single_char_tokens'])
+        ctx.require(tids == (want_tok,), f'unary `{spelling}` is the token {want_tok}', mp, 'Lexer.__init__', f'token of unary {spelling}', f'`{spelling}` gets the token {tids}: {"; ".join(whys)}', lt.nodes['self.single_char_tokens'])
         rets, _ = _summaries(ctx, mp, 'e7')
         got_cls = {semantic(s.shape(s.sp.result))[1] for s in rets if s.tokens == (want_tok,)}
         ctx.require(got_cls == {cls}, f'token {want_tok} at level 7 builds {cls}', mp, 'Parser.e7', f'e7: {want_tok} -> {sorted(got_cls)}', f'the unary token {want_tok} builds {sorted(got_cls)}; reference {cls}', mp.func('Parser.e7'))
@@ -437,6 +499,8 @@ def r2(ctx: RuleCtx) -> None:
         for v in views(ef):
             if v.outcome == 'return' and v.ops:
                 n += 1
+                v.ops = [_canon_member(o) for o in v.ops]
+                v.result = _canon_member(v.result)
                 ctx.require(v.ops == [want] and v.result == ('HOLD', want), f'{cls} -> {target}: holderify(value.operator_call({member}, None))', ef.mod, ef.qn,
                             f'{target}: {fmt(v.result)}', f'{target} returns {fmt(v.result)}; reference holderify(eval(value).operator_call(MesonOperator.{member}, None))', v.sp.last_node)
         ctx.floor(f'{target}: operator-applying paths', n, 1)
@@ -452,6 +516,8 @@ def r2(ctx: RuleCtx) -> None:
         for v in views(ef):
             if v.outcome == 'return' and v.ops:
                 n += 1
+                v.ops = [_canon_member(o) for o in v.ops]
+                v.result = _canon_member(v.result)
                 ctx.require(v.ops == [want] and v.result == ('HOLD', want), f'{cls} -> {target}: holderify(object.operator_call({member}, unholder(index)))', ef.mod, ef.qn,
                             f'{target}: {fmt(v.result)}', f'{target} returns {fmt(v.result)}; the index must be handed over unmodified (negative indices are the holder\'s business)', v.sp.last_node)
         ctx.floor(f'{target}: operator-applying paths', n, 1)
@@ -502,6 +568,18 @@ def r2(ctx: RuleCtx) -> None:
                 sup = [t for t in subterms(r) if is_call(t) and t[2] == '.op_div' and is_call(t[3]) and t[3][2] == 'super' and t[4] == ('OTHER',)]
                 okd = okd and bool(sup)
             ctx.require(okd, f'{sub}./ is derived from StringHolder./ on the same operand', sm, f'{sub}.op_div', f'{sub} DIV', f'{sub}.op_div does not return a value derived from super().op_div(other)', impl.fn)
+
+
+def _canon_member(t: T.Any) -> T.Any:
+    """`operator.MesonOperator.X`, `interpreterbase.MesonOperator.X` ... -> `MesonOperator.X`."""
+    if isinstance(t, tuple):
+        if len(t) == 2 and t[0] == 'name' and isinstance(t[1], str):
+            parts = t[1].split('.')
+            if len(parts) > 2 and parts[-2] == 'MesonOperator':
+                return ('name', '.'.join(parts[-2:]))
+            return t
+        return tuple(_canon_member(x) for x in t)
+    return t
 
 
 def _fmt_den(t: T.Any) -> str:
@@ -623,7 +701,7 @@ def r3(ctx: RuleCtx) -> None:
             what = 'IndexError is converted to InvalidArguments'
         ok = ok and all(is_call(r) and r[2].split('.')[-1] == 'InvalidArguments' for r, sp in raises)
         ctx.require(ok, f'{holder} INDEX: {what}', impl.mod, f'{impl.owner}.{impl.fn.name}', f'{holder} INDEX error conversion',
-                    f'{holder} indexing: {what} - not on the current tree', impl.fn)
+                    f'{holder} indexing does not guarantee that {what}: an out-of-range / missing index would escape as a Python exception or a wrong error', impl.fn)
     # exact-type equality of the base holder
     bm = repo.module(BASEOBJ)
     for cls, subj in (('ObjectHolder', 'self.held_object'), ('InterpreterObject', 'self')):
